@@ -9,6 +9,7 @@ import httpcore
 
 from . import simnet, endpoints, runners
 from .endpoints import Resp
+from .endpoints_h2 import SC as endpoints_h2_SC
 from .simnet import CALL, FAULTS_FOR
 from .world import (mk_pool, API, is_async, guarded, pool_counts, conn_state, owned_transports, exc_name,
                     documented)
@@ -18,6 +19,8 @@ TYPES = {
     "h1tls": dict(scheme="https", alpn=["http/1.1"]),
     "h2": dict(scheme="https", http2=True, alpn=["h2", "http/1.1"]),
     "h2pk": dict(scheme="http", http2=True, http1=False),
+    # a server that allows ONE concurrent stream: a stream slot that is lost anywhere wedges the next request at once
+    "h2-1slot": dict(scheme="https", http2=True, alpn=["h2", "http/1.1"], max_streams=1),
     "maybe-h2": dict(scheme="https", http2=True, alpn=["http/1.1"]),
     "fwd": dict(scheme="http", proxy="http"),
     "fwd-tls": dict(scheme="http", proxy="https"),
@@ -28,10 +31,10 @@ TYPES = {
     "socks-auth-tls": dict(scheme="https", proxy="socks5", auth=True, alpn=["http/1.1"]),
     "socks-h2": dict(scheme="https", proxy="socks5", http2=True, alpn=["h2"]),
 }
-CORE_TYPES = ["h1", "h1tls", "h2", "fwd", "tun", "socks"]
+CORE_TYPES = ["h1", "h1tls", "h2", "h2-1slot", "fwd", "tun", "socks"]
 SHAPES = ["get", "post3", "stream-partial"]
 
-TYPE_CLASS = {"h1": "h1", "h1tls": "h1", "h2": "h2", "h2pk": "h2", "maybe-h2": "h1", "fwd": "fwd", "fwd-tls": "fwd",
+TYPE_CLASS = {"h1": "h1", "h1tls": "h1", "h2": "h2", "h2pk": "h2", "h2-1slot": "h2", "maybe-h2": "h1", "fwd": "fwd", "fwd-tls": "fwd",
               "tun": "tun", "tun-h2": "tun", "tun-tls": "tun", "socks": "socks", "socks-auth-tls": "socks",
               "socks-h2": "socks"}
 
@@ -69,7 +72,9 @@ class Sc:
         self.origins = []
         for host in ("o.test", "p.test"):
             self.origins.append(endpoints.Origin(net, host, port, tls=tls, alpn=t.get("alpn"), responder=responder,
-                                                 register=reg, h2_script={"data_chunk": 1000}))
+                                                 register=reg,
+                                                 h2_script=dict({"data_chunk": 1000}, **({"settings": {
+                                                     endpoints_h2_SC.MAX_CONCURRENT_STREAMS: t["max_streams"]}} if t.get("max_streams") else {}))))
         self.probes = [endpoints.Origin(net, f"probe{i}.test", 80, register=reg) for i in range(n_probe)]
         self.proxy = None
         proxy_cfg = None
@@ -182,7 +187,7 @@ def contexts_for(ctype: str, flavor: str):
         return ["alone"]
     out = ["alone", "alone-yielding-trace", "queued-behind-same", "queued-behind-other", "victim-queued"]
     if TYPES[ctype].get("http2") and ctype != "maybe-h2":
-        out.append("shared-h2")
+        out += ["shared-h2", "shared-h2-yielding-trace", "queued-behind-same-yielding-trace"]
     if TYPES[ctype].get("http2") and TYPES[ctype]["scheme"] == "https":
         # several requests assigned to ONE connection while it is still being established (slow connect / TLS)
         # ("two-cos-...": two companions wait for the single stream slot a fresh HTTP/2 connection has)
@@ -195,12 +200,22 @@ async def run_injected(flavor: str, ctype: str, shape: str, context: str, inject
 
     inject: None | ("fault", op_index, kind) | ("cancel", style, k)
     Returns dict with sc, outcomes, K (victim yields), ops, phase_at_injection."""
-    maxc = 2 if context in ("alone", "alone-yielding-trace", "shared-h2") else 1
+    maxc = 2 if context in ("alone", "alone-yielding-trace", "shared-h2", "shared-h2-yielding-trace") else 1
     sc = Sc(ctype, flavor, max_connections=maxc, **(sc_kw or {}))
     net = sc.net
     if context == "alone-yielding-trace":
         sc.trace_yields = True
         context = "alone"
+    elif context == "queued-behind-same-yielding-trace":
+        # (HTTP/2: the companion is multiplexed on the victim's connection - with a one-stream server it waits for the
+        # victim's stream slot - while the victim can be cancelled inside its awaiting trace callback)
+        sc.trace_yields = True
+        context = "queued-behind-same"
+    elif context == "shared-h2-yielding-trace":
+        # the victim's trace callback awaits: every trace boundary is a suspension point at which it can be cancelled,
+        # while a companion's stream keeps the connection busy (nothing rescues a half-closed stream there)
+        sc.trace_yields = True
+        context = "shared-h2"
     if context in ("co-joins-connecting", "victim-joins-connecting", "two-cos-join-connecting"):
         net.latency = lambda kind, idx: 0.3 if kind in ("connect", "start_tls") else 0.0
     res = {"sc": sc, "outcomes": {}, "K": 0, "inj_phase": None, "fired": False}
